@@ -457,3 +457,46 @@ func (p *Prod) Source() string {
 	rec(p)
 	return sb.String()
 }
+
+// GoDecls renders the grammar as compilable Go type declarations (struct productions only).
+func (p *Prod) GoDecls() string {
+	var sb strings.Builder
+	seen := map[*Prod]bool{}
+	var rec func(q *Prod)
+	rec = func(q *Prod) {
+		if q == nil || seen[q] {
+			return
+		}
+		seen[q] = true
+		if q.IsUnion() {
+			fmt.Fprintf(&sb, "type %s interface{}\n\n", q.Name)
+			for _, m := range q.Members {
+				rec(m)
+			}
+			return
+		}
+		fmt.Fprintf(&sb, "type %s struct {\n", q.Name)
+		if q.HasPos {
+			sb.WriteString("\tPos lexer.Position\n")
+		}
+		if q.HasEndPos {
+			sb.WriteString("\tEndPos lexer.Position\n")
+		}
+		if q.HasTokens {
+			sb.WriteString("\tTokens []lexer.Token\n")
+		}
+		tags := q.Tags()
+		for i, f := range q.Fields {
+			if strings.ContainsAny(tags[i], "`\n") {
+				panic("tag not representable in a raw string: " + tags[i])
+			}
+			fmt.Fprintf(&sb, "\t%s %s `%s`\n", f.Name, f.GoType(), tags[i])
+		}
+		sb.WriteString("}\n\n")
+		for _, f := range q.Fields {
+			rec(f.Prod)
+		}
+	}
+	rec(p)
+	return sb.String()
+}
